@@ -59,6 +59,15 @@ func c15Gen(rng *rand.Rand, tier string) []Case {
 	for i := 0; i < nr; i++ {
 		out = append(out, nodeRandomCase(rng, c15Profile, fmt.Sprintf("r%d", i)))
 	}
+	if tier == "thorough" { // long histories
+		long := c15Profile
+		long.maxLen = 160
+		for i := 0; i < 300; i++ {
+			c := nodeRandomCase(rng, long, fmt.Sprintf("L%d", i))
+			c.Tags = []string{"random-long"}
+			out = append(out, c)
+		}
+	}
 	for i := range out {
 		ops := out[i].Ops
 		out[i].Nontrivial = opsHaveAfter(ops, "nl ", "rp ") && (opsHave(ops, "ml ") || opsHave(ops, "fl "))
